@@ -39,7 +39,7 @@ pub mod base64 {
 pub mod hex {
     use vstd::prelude::*;
     verus!{
-    #[derive(Debug)] pub struct FromHexError;
+    #[derive(Debug)] pub enum FromHexError { InvalidHexCharacter { c: char, index: usize }, OddLength, InvalidStringLength }
     #[verifier::external_body]
     pub fn decode(s: &str) -> (r: Result<Vec<u8>, FromHexError>)
         ensures r is Ok ==> 2 * r->Ok_0@.len() == s@.len()
